@@ -129,6 +129,13 @@ func checkDefaults(c *buildCase, out *dhcpv4.DHCPv4) []clauseFail {
 			if !optIs(out, 50, []byte(y)) {
 				bad(cl, "option 50 %s, offered address %x", optShow(out, 50), []byte(y))
 			}
+		} else if in.YourIPAddr == nil {
+			// a hand-built offer whose YourIPAddr is the nil slice is 0.0.0.0 on the wire
+			// (C01's domain: nil == 0.0.0.0); the REQUEST should ask for 00 00 00 00.
+			// Known finding on the unchanged tree: it carries a ZERO-LENGTH option 50.
+			if !optIs(out, 50, []byte{0, 0, 0, 0}) {
+				bad("request-from-offer-nil-yiaddr", "offer with YourIPAddr = nil (0.0.0.0 on the wire): option 50 %s, want 00000000", optShow(out, 50))
+			}
 		}
 		if !echoOK(in, out, 54) {
 			bad(cl, "option 54: offer %s, request %s", optShow(in, 54), optShow(out, 54))
